@@ -4,8 +4,9 @@
    repository on every run; the theorems are re-checked against them. *)
 From Coq Require Import ZArith QArith Qcanon List String Ascii Bool Lia.
 From AV.lib Require Import QcInst.
-From AV.C06 Require Import Base Model.
-From AV.gen Require Import C06_Gen C05_Gen.
+From AV.C06 Require Import Base.
+From AV.C05 Require Import Units.
+From AV.gen Require Import C05_Units_Gen C05_Gen.
 From AV.C05 Require Import Base Model Lemmas.
 Import ListNotations.
 Open Scope string_scope.
@@ -79,48 +80,64 @@ Qed.
 
 (* Reaction energies / enthalpies / free energies and barriers equal the sum over products (or the
    transition state delta uses) minus the sum over reactants, every contribution (E, H_cont, G_cont)
-   converted to Hartree on its own.  The TS used is a member of tss whose key is minimal among the TSs
-   that have an energy (is_lowest; the key is the raw number on the pinned tree, the energy in a common
-   unit once lowest_unit is set: see delta_ts_choice_unit_dependent_refuted). *)
+   converted to Hartree on its own.  The TS used is the LOWEST one: a member of tss such that every TS
+   that has an energy has, converted to Hartree, at least its energy (is_lowest_energy is stated with
+   the conversion to Hartree, independently of the generated comparison key). *)
 Theorem delta_is_sum_products_minus_sum_reactants : forall r s k,
   (forall m, In m (reacs r ++ prods r ++ tss r) -> units_ok m) ->
   (delta_kind s = Some (k, false) -> delta r s = diff_spec k (prods r) (reacs r)) /\
   (delta_kind s = Some (k, true) -> forall t, lowest_ts (tss r) = LOk (Some t) ->
-     delta r s = diff_spec k [t] (reacs r) /\ is_lowest (tss r) t).
+     delta r s = diff_spec k [t] (reacs r) /\ is_lowest_energy (tss r) t).
 Proof.
   intros r s k U. split.
   - intros H. apply delta_kind_parse in H. rewrite (delta_nonts _ _ _ H). apply diff_is_spec.
     intros m Hm. apply U. apply in_app_or in Hm as [Hm|Hm]; apply in_or_app; [right; apply in_or_app; left|left]; exact Hm.
-  - intros H t L. apply delta_kind_parse in H. pose proof (lowest_ts_spec _ _ L) as Hlow.
+  - intros H t L. apply delta_kind_parse in H. pose proof (lowest_ts_lowest_energy _ _ L) as Hlow.
     split; [|exact Hlow]. rewrite (delta_ts_some _ _ _ _ H L). apply diff_is_spec.
     intros m Hm. apply U. apply in_app_or in Hm as [[<-|[]]|Hm]; apply in_or_app;
       [right; apply in_or_app; right; exact (proj1 Hlow)|left; exact Hm].
 Qed.
 
-(* When the lowest TS is chosen in a common unit (lowest_unit <> None: the repaired form of
-   TransitionStates.lowest_energy) a non-empty list of transition states always yields one, so a
-   barrier is a value or None, never an exception. *)
-Theorem delta_ts_total_if_common_unit : lowest_unit <> None ->
-  forall r s k, delta_kind s = Some (k, true) ->
+(* A non-empty list of transition states always yields one (TSs without an energy are skipped, the first
+   is used when none has an energy), so a barrier is a value in Hartree or None, never an exception. *)
+Theorem delta_barrier_never_raises : forall r s k, delta_kind s = Some (k, true) ->
   (tss r <> [] -> exists t, lowest_ts (tss r) = LOk (Some t)) /\
   (delta r s = DNone \/ exists x, delta r s = DVal x target_u).
 Proof.
-  intros HN r s k H. split; [apply lowest_ts_total; exact HN|].
+  intros r s k H. split; [apply lowest_ts_total; exact lowest_unit_some|].
   apply delta_kind_parse in H. destruct (tss r) as [|t0 l] eqn:E.
   - rewrite (delta_barrierless _ _ _ H E). apply estimate_none_or_val.
   - assert (Hne : tss r <> []) by (rewrite E; discriminate).
-    destruct (lowest_ts_total (tss r) HN Hne) as [t L]. rewrite (delta_ts_some _ _ _ _ H L). apply diff_none_or_val.
+    destruct (lowest_ts_total (tss r) lowest_unit_some Hne) as [t L]. rewrite (delta_ts_some _ _ _ _ H L). apply diff_none_or_val.
 Qed.
 
 (* ... independent of the units in which individual energies were supplied: re-expressing any
-   contributions in other implemented energy units (reaction_equiv) leaves every delta unchanged —
-   for all reaction-type deltas, and for barriers when there is at most one TS (or when the TS is
-   chosen in a common unit: lowest_unit <> None, not the case on the current tree). *)
-Theorem delta_unit_independent : forall r r' s,
-  reaction_equiv r r' ->
-  (snd (parse s) = true -> (List.length (tss r) <= 1)%nat \/ lowest_unit <> None) ->
-  delta r' s = delta r s.
-Proof. exact delta_equiv. Qed.
+   contributions (of reactants, products and any number of transition states) in other implemented energy
+   units (reaction_equiv) leaves EVERY delta unchanged, barriers included. *)
+Theorem delta_unit_independent : forall r r' s, reaction_equiv r r' -> delta r' s = delta r s.
+Proof. intros r r' s H. apply delta_equiv; [exact H|]. intros _. right. exact lowest_unit_some. Qed.
+
+(* ... also for the way energies are SUPPLIED, `species.energy = v` (v None, a number/str = Hartree by
+   documentation, or an Energy of any class in any unit; Energies.append de-duplicates): afterwards the
+   species' potential energy is the entry the setter appended, whatever the list held before; and that
+   entry carries the physical quantity assigned (setter_mode is generated from the setter's branches;
+   on a tree where a non-potential Energy is cast by PotentialEnergy(float(v)) the statement is refuted
+   by 1 kcal mol-1 becoming 1 Ha). *)
+Theorem energy_supply_spec :
+  (forall v s, sp_energy (set_energy v s) =
+               match supplied_entry_m setter_mode v with Some e => Some (ex e, eu e) | None => sp_energy s end) /\
+  (forall other l, (forall item, In item l -> energy_eqb other item = false) -> energies_append other l = l ++ [other]) /\
+  match setter_mode with
+  | O => exists c x u, In u energy_units /\ forall e, supplied_entry_m 0 (SEnergy c x u) = Some e ->
+           supplied_default (SEnergy c x u) <> Some (entry_default e)
+  | S m => forall v e, supplied_units_ok v -> supplied_entry_m (S m) v = Some e ->
+           supplied_default v = Some (entry_default e)
+  end.
+Proof.
+  split; [intros v s; apply set_energy_m_energy|]. split; [exact energies_append_fresh|].
+  destruct setter_mode as [|m]; [exact supplied_entry_drops|].
+  intros v e Hu E. apply (supplied_entry_keeps (S m)); [discriminate|exact Hu|exact E].
+Qed.
 
 (* ... change sign when reactants and products are swapped (non-barrier types); None stays None. *)
 Theorem delta_antisymmetric : forall r s k,
@@ -199,41 +216,73 @@ Proof.
   injection H as -> _. exact (free_never_potential _ Hc E).
 Qed.
 
-(* Saving and reloading a checkpoint, and any history of switch / save+load / set-TS / append-TS
-   operations, preserves all of these values: a reloaded reaction IS the saved one (pickle being an
-   oracle); after any history the reaction is the original one or its switched image, carrying the
-   list of transition states that the ts-setter / append operations of the history produce (switch and
-   save/load never touch it); reaction-type deltas only follow the parity of switches; a checkpointed
-   step that ran >= 1 s hands every later run exactly the state it saved. *)
-Theorem checkpoint_history_preserves :
-  (forall r r' s, load (save r) r' = r /\ delta (load (save r) r') s = delta r s /\
-                  rtype (load (save r) r') = rtype r) /\
-  (forall ops r, run_ops ops r = set_tss (if odd_switches ops then switch r else r) (tss_after ops (tss r))) /\
-  (forall ops r, (forall o, In o ops -> o = OSwitch \/ o = OSaveLoad) ->
-     run_ops ops r = (if odd_switches ops then switch r else r) /\ tss (run_ops ops r) = tss r) /\
-  (forall ops r s k, delta_kind s = Some (k, false) ->
-     delta (run_ops ops r) s = (if odd_switches ops then dneg (delta r s) else delta r s)) /\
-  (forall f g r r2 e1 e2, ~ e1 < 1 ->
-     exists c, ckpt_step None e1 f r = (f r, Some c) /\
-               fst (ckpt_step (Some c) e2 g r2) = f r) /\
-  (forall f r e1, e1 < 1 -> ckpt_step None e1 f r = (f r, None)).
+(* Letter case never matters, and delta depends on the string only through what the parser extracts:
+   two strings with the same lower-casing give the same kind and the same delta on every reaction. *)
+Theorem delta_kind_case_insensitive : forall s s',
+  lower (B s) = lower (B s') ->
+  delta_kind s = delta_kind s' /\ forall r, delta r s = delta r s'.
 Proof.
-  split; [intros r r' s; rewrite load_save; repeat split; reflexivity|].
-  split; [exact run_ops_spec|]. split.
-  { intros ops r H. rewrite (run_ops_parity ops H). split; [reflexivity|]. destruct (odd_switches ops); reflexivity. }
-  split.
-  - intros ops r s k H. rewrite run_ops_spec. apply delta_kind_parse in H. rewrite (delta_nonts_set_tss _ _ _ _ H).
-    destruct (odd_switches ops); [|reflexivity]. apply (delta_switch r s k H).
-  - split.
-    + intros f g r r2 e1 e2 N. exists (save (f r)). split.
-      * apply ckpt_first_run. rewrite checkpoint_threshold_is_one_second.
-        destruct (Qcltb e1 1) eqn:E; [|reflexivity]. exfalso. apply N. apply Lemmas.Qcltb_lt. exact E.
-      * rewrite ckpt_rerun. cbn [fst]. apply load_save.
-    + intros f r e1 L. apply ckpt_short_run. rewrite checkpoint_threshold_is_one_second.
-      apply Lemmas.Qcltb_lt. exact L.
+  intros s s' H. split; [unfold delta_kind; rewrite H; reflexivity|].
+  intros r. unfold delta, parse. rewrite H. reflexivity.
 Qed.
 
-(* The ts setter: `reaction.ts = None` removes every transition state held (the reaction is
+(* Histories: after any sequence of switch / save+load / set-TS / append-TS operations the reaction is
+   the original one or its switched image (parity of switches), carrying the list of transition states
+   that the ts-setter / append operations produce (switch and save/load never touch it); reaction-type
+   deltas only follow the parity of switches. *)
+Theorem history_preserves :
+  (forall ops r, forallb no_update ops = true ->
+     run_ops ops r = set_tss (if odd_switches ops then switch r else r) (tss_after ops (tss r))) /\
+  (forall ops r, (forall o, In o ops -> o = OSwitch \/ o = OSaveLoad) ->
+     run_ops ops r = (if odd_switches ops then switch r else r) /\ tss (run_ops ops r) = tss r) /\
+  (forall ops r s k, forallb no_update ops = true -> delta_kind s = Some (k, false) ->
+     delta (run_ops ops r) s = (if odd_switches ops then dneg (delta r s) else delta r s)).
+Proof.
+  split; [intros ops r H; apply run_ops_spec; exact H|]. split.
+  { intros ops r H. rewrite (run_ops_parity ops H). split; [reflexivity|]. destruct (odd_switches ops); reflexivity. }
+  intros ops r s k Hu H. rewrite (run_ops_spec ops Hu). apply delta_kind_parse in H. rewrite (delta_nonts_set_tss _ _ _ _ H).
+  destruct (odd_switches ops); [|reflexivity]. apply (delta_switch r s k H).
+Qed.
+
+(* PARTIAL (definitional): "saving and reloading a checkpoint preserves all of these values".  In the model
+   save is the identity on the six modelled attributes and load copies them, so the first conjunct is a
+   restatement of that definition: pickle is an ORACLE.  What ties the clause to the code is (a) the
+   translator's statement-by-statement match of Reaction.save / load and of the decorator and (b) the
+   pickle round-trip oracle run on every generated reaction.  What IS proved is the decorator's logic over
+   that oracle: a step that ran >= 1 s without raising stores its state under its key and every later
+   run with that key gets exactly that state without executing; a step < 1 s, or one that RAISED, stores
+   nothing; a different key is unaffected. *)
+Theorem checkpoint_roundtrip_partial :
+  (forall r r' s, load (save r) r' = r /\ delta (load (save r) r') s = delta r s) /\
+  (forall store key f r e1, lookup_ckpt key store = None -> ~ e1 < 1 ->
+     ckpt_keyed store key e1 false f r = (f r, (key, save (f r)) :: store)) /\
+  (forall store key c g r2 e2 b, lookup_ckpt key store = Some c ->
+     ckpt_keyed store key e2 b g r2 = (load c r2, store) /\ load c r2 = c) /\
+  (forall store key f r e1, lookup_ckpt key store = None -> e1 < 1 ->
+     ckpt_keyed store key e1 false f r = (f r, store)) /\
+  (forall store key f r e1, lookup_ckpt key store = None ->
+     ckpt_keyed store key e1 true f r = (f r, store)) /\
+  (forall store key k2 c, k2 <> key -> lookup_ckpt k2 ((key, c) :: store) = lookup_ckpt k2 store).
+Proof.
+  split; [intros r r' s; rewrite load_save; split; reflexivity|].
+  split.
+  { intros store key f r e1 L N. unfold ckpt_keyed. rewrite L, ckpt_first_run; [reflexivity|].
+    rewrite checkpoint_threshold_is_one_second.
+    destruct (Qcltb e1 1) eqn:E; [|reflexivity]. exfalso. apply N. apply Units.Qcltb_lt. exact E. }
+  split.
+  { intros store key c g r2 e2 b L. unfold ckpt_keyed. rewrite L, ckpt_rerun. cbn [fst snd].
+    split; [reflexivity|]. destruct c; reflexivity. }
+  split.
+  { intros store key f r e1 L Hlt. unfold ckpt_keyed. rewrite L, ckpt_short_run; [reflexivity|].
+    rewrite checkpoint_threshold_is_one_second. apply Units.Qcltb_lt. exact Hlt. }
+  split.
+  { intros store key f r e1 L. unfold ckpt_keyed. rewrite L, ckpt_raised. reflexivity. }
+  intros store key k2 c N. cbn [lookup_ckpt]. destruct (String.eqb k2 key) eqn:E; [|reflexivity].
+  apply String.eqb_eq in E. congruence.
+Qed.
+
+(* The ts setter (clauses 1, 2 restate run_op; the content is in the delta equations and persistence):
+   `reaction.ts = None` removes every transition state held (the reaction is
    barrierless again and every barrier is the diffusion-limit estimate of barrierless_estimate_spec),
    `reaction.ts = t` makes t the only one (every barrier is t minus the reactants); both persist
    through any later switch / save / load. *)
@@ -244,9 +293,11 @@ Theorem ts_setter_spec : forall r,
   (forall t, tss (run_op (OSetTS (Some t)) r) = [t] /\ is_barrierless (run_op (OSetTS (Some t)) r) = false /\
    forall s k, delta_kind s = Some (k, true) -> delta (run_op (OSetTS (Some t)) r) s = diff k [t] (reacs r)) /\
   (forall x ops, (forall o, In o ops -> o = OSwitch \/ o = OSaveLoad) ->
-     tss (run_ops ops (run_op (OSetTS x) r)) = match x with None => [] | Some t => [t] end).
+     tss (run_ops ops (run_op (OSetTS x) r)) = match x with None => [] | Some t => [t] end) /\
+  (* assigning something that is not a TransitionState raises ValueError AFTER the list was cleared *)
+  run_op OSetTSInvalid r = run_op (OSetTS None) r.
 Proof.
-  intros r. split; [|split].
+  intros r. split; [|split; [|split; [|reflexivity]]].
   - split; [reflexivity|]. split; [unfold is_barrierless; cbn [run_op set_tss tss]; rewrite lowest_ts_nil; reflexivity|].
     intros s k H. apply delta_kind_parse in H.
     rewrite (delta_barrierless (run_op (OSetTS None) r) s k H eq_refl). reflexivity.
@@ -260,27 +311,6 @@ Qed.
 
 (* ---------------------------------------------------------------------------------------------
    Statements of the property that are FALSE of the faithful model (findings; see harness/c05.py) *)
-
-(* "independent of the units": with several transition states the "lowest" one is chosen by comparing
-   the raw numbers (lowest_unit = None on the current tree): -100 kcal mol-1 beats -1 Ha.  Two
-   reactions differing only in the unit one TS energy is written in have different barriers. *)
-Theorem delta_ts_choice_unit_dependent_refuted :
-  lowest_unit = None ->
-  exists r r', reaction_equiv r r' /\ delta r "E‡" <> delta r' "E‡".
-Proof.
-  intros HN. exists (w_r w_ts2), (w_r w_ts2'). split; [exact w_equiv|exact (w_delta_differs HN)].
-Qed.
-
-(* "undefined exactly when a required contribution is missing": on the pinned tree (lowest_unit = None)
-   two transition states of which one has no energy give an exception, not None (a single one: None). *)
-Theorem delta_ts_without_energy_refuted :
-  lowest_unit = None ->
-  exists r r1, delta r "E‡" = DErr "TypeError" /\ List.length (tss r) = 2%nat /\
-               delta r1 "E‡" = DNone /\ List.length (tss r1) = 1%nat.
-Proof.
-  intros HN. destruct (witness_ts_without_energy HN) as [H1 H2]. eexists. eexists.
-  split; [exact H1|]. split; [reflexivity|]. split; [exact H2|reflexivity].
-Qed.
 
 (* "its type follows solely from the numbers of reactant and product molecules" over switch
    histories: switch_reactants_products swaps the lists but keeps the old type. *)
